@@ -33,7 +33,7 @@ TARGETS = {
                      "Bip32Path._to_list", "Bip32Path.to_list", "Bip32Path.integrity_check", "Bip32Path.__init__",
                      "Bip32Path.m", "Bip32Path.repr_hardened", "Bip32Path.__repr__", "Bip32Path.parse"],
     "script": ["Script.raw_serialize", "Script.serialize", "Script.__init__", "p2wsh_script", "p2wpkh_script", "p2sh_script", "p2pkh_script"],
-    "bip39": ["correct_entropy_bits_value", "checksum_length", "mnemonic_sentence_length", "mnemonic_from_entropy"],
+    "bip39": ["correct_entropy_bits_value", "checksum_length", "mnemonic_sentence_length", "mnemonic_from_entropy", "mnemonic_from_entropy_bits"],
     "bip85": ["BIP85DeterministicEntropy.byte_count_from_word_count", "BIP85DeterministicEntropy.hex", "BIP85DeterministicEntropy.bip39_mnemonic"],
     "ripemd": ["fi", "rol", "compress", "ripemd160"],
     "keys": ["PrivateKey.__bytes__", "PrivateKey.wif"],
@@ -48,6 +48,9 @@ EXTERNS = {
     "bip85.BIP85DeterministicEntropy.entropy": (["self", "path"],
         "path = Bip32Path.parse(path)\nnode = self.master_node.derive_path(index_list=path.to_list())\nreturn self._hmac_sha512(msg=bytes(node.private_key))"),
 }
+# an external primitive that is not a function of the package: the module-level object `random = random.SystemRandom()`;
+# what is pinned is that binding (extern_ok); getrandbits(k) answers an arbitrary integer, a parameter of the theorems
+EXTERNS["bip39.random.getrandbits"] = (["k"], None)
 EXTERN_KIND = {"bip85.BIP85DeterministicEntropy.entropy": "instance"}
 EXN = {"IndexError", "TypeError", "ValueError", "OverflowError", "ZeroDivisionError", "RuntimeError", "KeyError", "ArgumentError", "AssertionError"}
 BINOPS = {ast.Add: "Add", ast.Sub: "Sub", ast.Mult: "Mul", ast.FloorDiv: "FloorDiv", ast.Mod: "Mod",
@@ -456,6 +459,14 @@ class FunTrans:
                     and isinstance(pat.right, ast.Constant) and isinstance(pat.right.value, int):
                 return "(EBuiltin BChunks (ECons (EConst (VInt %d)) %s))" % (pat.right.value, self.exprs([e.args[1]], scope))
             raise Untranslatable("re.findall with a pattern other than '.' * K")
+        # random.getrandbits(k) on the module-level SystemRandom object
+        if isinstance(f, ast.Attribute) and isinstance(f.value, ast.Name) and f.value.id == "random" and f.attr == "getrandbits" \
+                and not self.is_local("random", scope) and len(e.args) == 1 and not e.keywords and not isinstance(e.args[0], ast.Starred):
+            rq = "%s.random.getrandbits" % self.mod.name
+            if rq not in EXTERNS:
+                raise Untranslatable("random.getrandbits in a module where it is not an external primitive")
+            self.calls.append(rq)
+            return "(ECall %s %s)" % (cstr(rq), self.exprs(e.args, scope))
         qual = self.resolve_callee(f)
         if qual is not None and e.args and isinstance(e.args[0], ast.Starred) and not e.keywords \
                 and not any(isinstance(a, ast.Starred) for a in e.args[1:]) and self.world.known(qual) and qual not in EXTERNS:
@@ -673,6 +684,15 @@ class World:
 
     def extern_ok(self, qual):
         m, f = qual.split(".", 1)
+        if EXTERNS[qual][1] is None:
+            # `import random` and exactly one module-level binding of the name: random = random.SystemRandom()
+            tree = self.mod(m).tree
+            binds = [n for n in ast.walk(tree) if (isinstance(n, (ast.Assign, ast.AugAssign, ast.AnnAssign)) and
+                                                   any(isinstance(t, ast.Name) and t.id == "random" for t in ast.walk(n) if isinstance(getattr(t, "ctx", None), ast.Store)))
+                     or (isinstance(n, ast.Global) and "random" in n.names)
+                     or (isinstance(n, (ast.Import, ast.ImportFrom)) and any((a.asname or a.name) == "random" for a in n.names))]
+            want = ["import random", "random = random.SystemRandom()"]
+            return [ast.unparse(b) for b in binds] == want and all(b in tree.body for b in binds)
         fn = self.mod(m).funcs.get(f)
         if fn is None:
             return False
